@@ -3,8 +3,8 @@ CONSTANTS
   MaxReq = 5
   MaxInflight = 3
   MaxDone = 5
-  Defects = {"ExitBeforeTransfer"}
+  Defects = {"LookupOwnFamilyWildcard"}
   EmitCases = FALSE
 SPECIFICATION Spec
-INVARIANTS TypeOK BytesIntact OneReply NoLoss HandedOver Released DecodedBy Adopted
+INVARIANTS TypeOK Adopted BytesIntact OneReply NoLoss HandedOver Released DecodedBy
 CHECK_DEADLOCK FALSE
